@@ -491,6 +491,9 @@ func (o *authOracle) check(k int, c *obsCall) {
 		m := &c.msgs[i]
 		if m.extra != "" {
 			cls := "auth-unexpected-field"
+			if strings.Contains(m.extra, "wallclock:bearer-expired") {
+				cls = "auth-bearer-expired-wallclock" // the fake registry's own clock: the token's lifetime was over when it arrived
+			}
 			if strings.Contains(m.dest, "//"+authRedirectHost+"/") {
 				cls = "auth-unexpected-field:token-server-redirect" // net/http adds a Referer when it follows a redirect (finding F28)
 			}
